@@ -190,7 +190,7 @@ theorem C01_static_set {r : Root} {s : Id} {ns : Node} {old : Int} {B fuel : Nat
   obtain ⟨r', ran, hrun, hI', hE, hsub⟩ := propagateLoop_static buf.reverse _ f B hI hBM (by omega)
   have hEall : Evolves r1 r' ran := by simpa using hED.trans (hEM.trans hE)
   refine ⟨r', ran, ?_, ?_, hEall, hsub.nodup (nodup_reverse hSch.nodup)⟩
-  · simp [propagateUpdates, propagateNodeUpdates, f6, hA.batching, hvis, hrun]
+  · simp [propagateUpdates, propagateNodeUpdates, f6, hA.batching, hvis, hSch.loop_resetMarks, hrun]
   · obtain ⟨_, e2, _, _, e5, e6, _⟩ := hEall.frame
     refine ⟨hI'.struct, fun j m hm => by simpa using hI'.marks j m hm, fun j m hm => ?_,
       by rw [e2, f2, hA.tracker], by rw [e6, f6, hA.batching], by rw [e5, f5, hA.queue], fun j => ?_⟩
